@@ -717,6 +717,15 @@ func init() {
 			var e *Term = ErrNil
 			switch src := c.Args[1].(type) {
 			case *EncVal:
+				if src.Enc == "stored" && cur != nil {
+					// a value read from this module's own store through an iterator whose prefix is outside the key
+					// model: written by typed code (A-CODEC), content unconstrained
+					nv := x.freshTerm("decoded", cur.Sort)
+					st.assume(TypeInv(nv, pv.Obj.typ, 0))
+					x.store(st, pv, nv)
+					x.assumed["A-CODEC: values reached through an opaque iterator decode with the type they are read as"] = true
+					break
+				}
 				if src.Enc == "raw" && cur != nil {
 					// bytes of unknown provenance (foreign store): unconstrained decoded value
 					nv := x.freshTerm("decoded", cur.Sort)
